@@ -333,6 +333,20 @@ def judge_simulation(ctx, res, cfg, mode, sim, record=True):
             extra = [x for x in got if x not in want][:3]
             viol("C01:program-vs-scenario", "a program's emission records differ from the pre-generated scenario",
                  {"cfg": cfg, "mode": mode, "sim": sim, "program": prog, "missing": miss, "unexpected": extra})
+    # the number of emissions that BECOME ACTIVE during each program's run (running on an uncopied, shared
+    # infrastructure keeps the identity tuples of the records equal but not this number)
+    for prog in res.programs:
+        ts = res.timeseries(prog, sim)
+        if ts is None:
+            viol("C01:records-missing", "a program of a finished run has no timeseries.csv for a simulation number",
+                 {"cfg": cfg, "mode": mode, "sim": sim, "program": prog})
+            continue
+        n_new = sum(int(float(r["New Leaks"])) for r in ts)
+        if n_new != len(want):
+            viol("C01:activated-count-vs-scenario",
+                 "the emissions that became active during a program's run (sum of New Leaks) are not the scenario "
+                 "emissions starting on or before the end date",
+                 {"cfg": cfg, "mode": mode, "sim": sim, "program": prog, "sum_new_leaks": n_new, "scenario": len(want)})
     base = res.cfg["baseline"]
     for prog in res.programs:
         # Theoretical End Date of a non-repairable emission is its expiry date (empty until it expires) and
@@ -418,6 +432,16 @@ def whole_jobs(ctx):
             cfg = W.make_config(ctx.rng, n_sims=6, ndays=120, n_sites=4)
         if len(cfg["programs"]) < 4:
             cfg["programs"].append({"name": "P_fix", "methods": ["FIX", "OGI_FU2"]})
+        if j % 4 == 0:
+            # sites file with `<method>_site_deployment` columns: the mobile component-level method OGI, the
+            # mobile screening method AIR and the stationary method FIX are each NOT deployed at some sites
+            # (valid input; "whatever methods a program deploys" — the baseline deploys nothing anywhere)
+            ids = [st["id"] for st in cfg["sites"]]
+            cfg["site_extra_cols"] = {
+                "OGI_site_deployment": {i: ("False" if k % 3 == 0 else "True") for k, i in enumerate(ids)},
+                "AIR_site_deployment": {i: ("False" if k % 3 == 1 else "True") for k, i in enumerate(ids)},
+                "FIX_site_deployment": {i: ("False" if k % 2 == 1 else "True") for k, i in enumerate(ids)},
+            }
         jobs.append((cfg, True, 1))
         cfg2 = dict(cfg)
         progs = list(cfg["programs"])
@@ -460,6 +484,8 @@ def whole_stage(ctx):
             ctx.sample({"whole_run": mode, "sites": cfg["n_sites"], "granular": cfg["granular"]}, cap=8)
             ctx.count("wholerun_runs")
             ctx.count("wholerun_runs_n_sims_%d" % cfg["n_sims"])
+            if cfg.get("site_extra_cols"):
+                ctx.count("wholerun_runs_with_site_deployment_columns")
             if not cfg["granular"] and cfg["rep"]["epr"] > 0 and cfg["nonrep"]["epr"] > 0:
                 ctx.count("wholerun_runs_components_with_two_productive_sources")
         # a crash is judged by the property that owns it — unless it depends on HOW the programs are
